@@ -9,7 +9,7 @@ OpCode(o) == CASE o = "catc" -> 1 [] o = "catc_" -> 2 [] o = "catn" -> 3 [] o = 
   [] o = "cat" -> 7 [] o = "cat_" -> 8 [] o = "catf" -> 9 [] o = "utf_catc" -> 10 [] o = "getc" -> 11 [] o = "getc_" -> 12
   [] o = "getn" -> 13 [] o = "getn_" -> 14 [] o = "rtrim" -> 15 [] o = "rtrim_" -> 16 [] o = "ltrim" -> 17 [] o = "ltrim_" -> 18
   [] o = "trim" -> 19 [] o = "trim_" -> 20 [] o = "setn" -> 21 [] o = "setn_" -> 22 [] o = "setm" -> 23 [] o = "setm_" -> 24
-  [] o = "exit" -> 25 [] o = "cmpn" -> 26 [] o = "cmps" -> 27 [] o = "cmp" -> 28 [] o = "utf_len" -> 29 [] OTHER -> 0
+  [] o = "exit" -> 25 [] o = "cmpn" -> 26 [] o = "cmps" -> 27 [] o = "cmp" -> 28 [] o = "utf_len" -> 29 [] o = "acc" -> 30 [] OTHER -> 0
 Emit == PrintT(ToJson(<<3333333, OpCode(last'.op), last'.a1, last'.ret, last'.term, mem, mem', Len(s), Len(s'), Len(last'.blk), Len(last'.out),
                         s, s', last'.blk, last'.out>>))
 =============================================================================
